@@ -151,6 +151,10 @@ impl FeelDate {
   }
   ///
   pub fn today_local() -> Self {
+    #[cfg(dmntk_verif)]
+    if let Some((year, month, day)) = crate::verif::today() {
+      return Self(year, month, day);
+    }
     let today = Local::today();
     Self(today.year(), today.month() as u8, today.day() as u8)
   }
